@@ -823,7 +823,7 @@ def e2e_cases(ctx):
 def run_e2e(ctx, cases, timeout=None):
     timeout = timeout or ctx.budget(6.0, 20.0)
     done, reqs = [], []
-    deadline = ctx.t0 + ctx.budget(75, 780)
+    deadline = ctx.t0 + ctx.budget(60, 780)
     import time
     for case in cases:
         if time.time() > deadline:
@@ -930,6 +930,8 @@ def dispatch(ctx, cases):
 
 
 def run(ctx):
+    import warnings
+    warnings.filterwarnings("ignore", category=RuntimeWarning)
     ctx.extra["rule"] = RULE
     ctx.extra["trusted"] = [
         "numpy float sqrt / arccos / % (predicate inputs are dyadic, angle boundary cases are skipped, the "
@@ -957,6 +959,8 @@ def run(ctx):
 
 
 def replay(ctx, data):
+    import warnings
+    warnings.filterwarnings("ignore", category=RuntimeWarning)
     if data.get("kind") == "no-failing-input-found":
         print("replay names obligations that no longer check:")
         for item in data.get("no_longer_checks", []):
